@@ -69,6 +69,7 @@ func genCase(t *rapid.T) copyx.Case {
 	c.Conc = rapid.SampledFrom([]int{1, 2, 3, 4, 6, 0}).Draw(t, "conc4")
 	c.LatSeed = rapid.IntRange(1, 1<<20).Draw(t, "latSeed4")
 	c.CustomFind = rapid.IntRange(0, 2).Draw(t, "customFind") == 0
+	c.FindBypass = c.CustomFind && rapid.Bool().Draw(t, "findBypass")
 	if c.API != "extcopygraph" {
 		c.Pre = copyx.GenPre(t, d, d.Reach(c.Root, true), c.Root)
 	} else {
@@ -161,10 +162,19 @@ func genDiamond(t *rapid.T) copyx.Case {
 	node := rapid.SampledFrom([]int{shared, shared, shared, below}).Draw(t, "faultNode")
 	op := rapid.SampledFrom([]string{"PreCopy", "PreCopy", "PostCopy"}).Draw(t, "cbOp")
 	c.Faults = []inst.Fault{{Side: "cb", Op: op, Node: node, When: "before", Kind: "error"}}
+	if rapid.IntRange(0, 2).Draw(t, "sharedPresent") == 1 {
+		// no failure: the shared node (and what is below it) is in the destination
+		// already, so its terminal notification is an OnCopySkipped - which every
+		// parent has to wait for, not only the one that looked the node up
+		d := gen.Build(c.Specs)
+		c.Pre = gen.SortedKeys(d.Reach(shared, true))
+		c.Faults = nil
+	}
 	return c
 }
 
 type nodeLog struct {
+	termEnd            int64        // seq of the end of the first successful PostCopy / OnCopySkipped
 	pre, post, skipped []inst.Event // callback begin events
 	pushBegin, pushEnd []inst.Event
 	fetchBegin         []inst.Event
@@ -178,6 +188,11 @@ func runCase(c copyx.Case) (res vt.Result, fail *vt.Fail) {
 	}
 	defer e.Close()
 	e.Rec.Heavy = true
+	e.Rec.SlowCallbacks = c.LatSeed%2 == 0
+	if len(c.Pre) > 0 && len(c.Pre) <= 4 {
+		// long enough for a parent that was released too early to overtake it
+		e.Rec.SlowSkipped = 5 * time.Millisecond
+	}
 	d := e.D
 	var out copyx.Outcome
 	fin, _ := vt.Watch(60*time.Second, func() { out = e.Invoke(true) })
@@ -213,6 +228,10 @@ func runCase(c copyx.Case) (res vt.Result, fail *vt.Fail) {
 			l.post = append(l.post, ev)
 		case ev.Side == "cb" && ev.Ph == "begin" && ev.Op == "OnCopySkipped":
 			l.skipped = append(l.skipped, ev)
+		case ev.Side == "cb" && ev.Ph == "end" && (ev.Op == "PostCopy" || ev.Op == "OnCopySkipped") && !ev.Err:
+			if l.termEnd == 0 {
+				l.termEnd = ev.Seq
+			}
 		case ev.Side == "dst" && ev.Op == "Push" && ev.Ph == "begin":
 			l.pushBegin = append(l.pushBegin, ev)
 		case ev.Side == "dst" && ev.Op == "Push" && ev.Ph == "end":
@@ -303,6 +322,9 @@ func runCase(c copyx.Case) (res vt.Result, fail *vt.Fail) {
 				}
 				if term == nil {
 					return res, vt.Failf("C04/postcopy-without-successor-terminal", "node %d got PostCopy but its %s successor %d got neither PostCopy nor OnCopySkipped", id, ed.Role, ed.To)
+				}
+				if cl.termEnd > l.post[0].Seq {
+					return res, vt.Failf("C04/postcopy-before-successor-terminal", "node %d: PostCopy began (seq %d) before the terminal notification of successor %d had returned (seq %d)", id, l.post[0].Seq, ed.To, cl.termEnd)
 				}
 				if term.Seq > l.post[0].Seq {
 					return res, vt.Failf("C04/postcopy-before-successor-terminal", "node %d: PostCopy (seq %d) before the terminal notification of successor %d (seq %d)", id, l.post[0].Seq, ed.To, term.Seq)
